@@ -15,18 +15,15 @@ def methods : List (String × List Ev) := [
   ("Set", [.lock, .write, .unlock]),  -- safekv.go:50
   ("SetNx", [.lock, .read, .write, .unlock]),  -- safekv.go:57
   ("SetX", [.lock, .read, .write, .unlock]),  -- safekv.go:68
-  ("Delete", [.bad, .bad]),  -- safekv.go:79
-  --   bad at safekv.go:82: calls deleteKeys on the receiver (nested locking is not modelled)
-  --   bad at safekv.go:85: calls deleteKeys on the receiver (nested locking is not modelled)
-  ("deleteKeys", [.lock, .write, .unlock]),  -- safekv.go:90
-  ("Has", [.rlock, .read, .runlock]),  -- safekv.go:99
-  ("Contains", [.rlock, .read, .runlock]),  -- safekv.go:107
-  ("Len", [.rlock, .read, .runlock]),  -- safekv.go:115
-  ("Keys", [.rlock, .read, .read, .runlock]),  -- safekv.go:123
-  ("Values", [.rlock, .read, .read, .runlock]),  -- safekv.go:134
-  ("Range", [.rlock, .read, .callFn, .runlock]),  -- safekv.go:145
-  ("Clear", [.lock, .read, .replace, .unlock]),  -- safekv.go:156
-  ("Map", [.lock, .read, .callFnMap, .unlock]),  -- safekv.go:163
+  ("Delete", [.lock, .write, .unlock]),  -- safekv.go:79
+  ("Has", [.rlock, .read, .runlock]),  -- safekv.go:88
+  ("Contains", [.rlock, .read, .runlock]),  -- safekv.go:96
+  ("Len", [.rlock, .read, .runlock]),  -- safekv.go:104
+  ("Keys", [.rlock, .read, .read, .runlock]),  -- safekv.go:112
+  ("Values", [.rlock, .read, .read, .runlock]),  -- safekv.go:123
+  ("Range", [.rlock, .read, .callFn, .runlock]),  -- safekv.go:134
+  ("Clear", [.lock, .read, .replace, .unlock]),  -- safekv.go:145
+  ("Map", [.lock, .read, .callFnMap, .unlock]),  -- safekv.go:152
   ("All", [.rlock, .read, .callFn, .runlock])  -- iter.go:8
 ]
 
